@@ -16,9 +16,9 @@
   the elastic constants allowed by the stated hypotheses.
 -/
 import TfelVerif.C21.Lemmas
+import TfelVerif.C21.GenModuli
 import TfelVerif.C21.GenIso
 import TfelVerif.C21.GenHyp
-import TfelVerif.C21.PropsIso
 
 namespace TfelVerif.C21.Props
 open TfelVerif TfelVerif.C21
@@ -41,7 +41,16 @@ theorem iso_TRIDIM_spec (E nu g : K) :
   c21_eq
 theorem iso_TRIDIM_eq_stiffness_YN (E nu g : K) (h : Admissible E nu) :
     Gen.iso_TRIDIM_UNALT_all c c3 fn E nu g = Gen.stiffness_YN_all c c3 fn E nu := by
-  rw [iso_TRIDIM_spec, stiffness_YN_spec c c3 fn E nu h]
+  obtain ⟨h1, h2, h3, h4, h5, h6, h7⟩ := h.dens
+  have e1 : Gen.stiffness_YN_all c c3 fn E nu
+      = app2 (Gen.stiffness_KG_all c c3 fn) (Gen.YN_ToKG_all c c3 fn E nu) := by c21_eq
+  have e2 : Gen.YN_ToKG_all c c3 fn E nu = [E / (3 * (1 - 2 * nu)), E / (2 * (1 + nu))] := by c21_eq
+  have e3 : ∀ k m : K, Gen.stiffness_KG_all c c3 fn k m = isoStiff (k - 2 * m / 3) m := by intro k m; c21_eq
+  rw [iso_TRIDIM_spec, e1, e2]
+  simp only [app2, List.getD_cons_succ, List.getD_cons_zero]
+  rw [e3]
+  congr 1
+  field_simp; ring1
 
 theorem iso_AGPE_UNALT_reduction (E nu g g' : K) :
     Gen.iso_AGPE_UNALT_all c c3 fn E nu g = block3 (Gen.iso_TRIDIM_UNALT_all c c3 fn E nu g') := by c21_eq
